@@ -23,9 +23,17 @@ def render_styled(spec, cls_suffix=""):
     pre = ""          # prefix to reference states inside the class body
     if states_style == "enum":
         L += ["import enum", f"class StEnum_{uid}(enum.Enum):"]
-        for s in spec["states"]:
-            L.append(f"    {s['id']} = {s['value']['expr'] if s.get('value') else repr(s['id'])}")
-        if st.get("enum_alias", True):
+        if st.get("enum_inst"):
+            # States.from_enum(..., use_enum_instance=True): the state values are the members themselves;
+            # one member is falsy; a fixed repr lets the reference name the value without the class
+            for k_, s in enumerate(spec["states"]):
+                L.append(f"    {s['id']} = {k_ + 1}")
+            L.append(f"    def __bool__(self): return self.name != {st['enum_inst']!r}")
+            L.append("    def __repr__(self): return 'EI.' + self.name")
+        else:
+            for s in spec["states"]:
+                L.append(f"    {s['id']} = {s['value']['expr'] if s.get('value') else repr(s['id'])}")
+        if st.get("enum_alias", True) and not st.get("enum_inst"):
             s0 = spec["states"][-1]
             L.append(f"    alias_of_last = {s0['value']['expr'] if s0.get('value') else repr(s0['id'])}")
         L.append("")
@@ -51,7 +59,8 @@ def render_styled(spec, cls_suffix=""):
             init = next(s["id"] for s in spec["states"] if s["initial"])
             finals = [f"StEnum_{uid}.{s['id']}" for s in spec["states"] if s["final"]]
             out.append(f"{indent}_S = States.from_enum(StEnum_{uid}, initial=StEnum_{uid}.{init}"
-                       + (f", final=[{', '.join(finals)}]" if finals else "") + ")")
+                       + (f", final=[{', '.join(finals)}]" if finals else "")
+                       + (", use_enum_instance=True" if st.get("enum_inst") else "") + ")")
         return out
 
     if states_style in ("dict", "enum"):
